@@ -25,7 +25,7 @@ Members(n) == {MemName(i) : i \in 1..n}
 
 Cases ==
   [ side : {"lhs"}, n : 1..3, q : Quals, mode : {"all", "any"}, off : {"", "[-P1]"},
-    mix : {"none", "and", "or", "andfam", "orfam"}, opt : BOOLEAN ]
+    mix : {"none", "and", "or", "andfam", "orfam", "sameor", "sameparen"}, opt : BOOLEAN ]
   \cup
   [ side : {"rhs"}, n : 1..3, q : Quals \cup {"lone"}, mode : {"all", "any"}, off : {""},
     mix : {"none"}, opt : BOOLEAN ]
@@ -37,16 +37,24 @@ Legal(c) ==
   \* cylc requires submit-failed and expired to be marked optional wherever they are written
   /\ (c.q \in {"submit-fail", "expire"} => c.opt)
 
+\* the same family a second time in the same expression, with another qualifier and the other of all/any
+Q2(c) == IF c.q = "start" THEN "succeed" ELSE "start"
+Mode2(c) == IF c.mode = "all" THEN "any" ELSE "all"
 Atom(m, off, o) == m \o off \o ":" \o o
 Atoms(c) ==
   IF c.side = "rhs" THEN {"x:succeeded"}
   ELSE {Atom(m, c.off, o) : m \in Members(c.n), o \in MemOut(c.q)}
        \cup (IF c.mix \in {"and", "or"} THEN {"x:failed"} ELSE {})
        \cup (IF c.mix \in {"andfam", "orfam"} THEN {"g1:started", "g2:started"} ELSE {})
+       \cup (IF c.mix \in {"sameor", "sameparen"} THEN {Atom(m, "", o) : m \in Members(c.n), o \in MemOut(Q2(c))} ELSE {})
+       \cup (IF c.mix = "sameparen" THEN {"x:failed"} ELSE {})
 
 MemSat(m, c, S) == \E o \in MemOut(c.q) : Atom(m, c.off, o) \in S
 FamSat(c, S) == IF c.mode = "all" THEN \A m \in Members(c.n) : MemSat(m, c, S)
                                   ELSE \E m \in Members(c.n) : MemSat(m, c, S)
+Mem2Sat(m, c, S) == \E o \in MemOut(Q2(c)) : Atom(m, "", o) \in S
+Fam2Sat(c, S) == IF Mode2(c) = "all" THEN \A m \in Members(c.n) : Mem2Sat(m, c, S)
+                                      ELSE \E m \in Members(c.n) : Mem2Sat(m, c, S)
 \* second family G = {g1, g2} with start-any, to check two families in one expression
 GSat(S) == "g1:started" \in S \/ "g2:started" \in S
 LhsTrue(c, S) ==
@@ -56,6 +64,8 @@ LhsTrue(c, S) ==
     [] c.mix = "or"      -> FamSat(c, S) \/ "x:failed" \in S
     [] c.mix = "andfam"  -> FamSat(c, S) /\ GSat(S)
     [] c.mix = "orfam"   -> FamSat(c, S) \/ GSat(S)
+    [] c.mix = "sameor"  -> FamSat(c, S) \/ Fam2Sat(c, S)
+    [] c.mix = "sameparen" -> (FamSat(c, S) /\ Fam2Sat(c, S)) \/ "x:failed" \in S
 
 TruthSet(c) == {S \in SUBSET Atoms(c) : LhsTrue(c, S)}
 
@@ -63,9 +73,11 @@ FamNode(c) == IF c.q = "lone" THEN "FAM" \o (IF c.opt THEN "?" ELSE "")
               ELSE "FAM" \o c.off \o ":" \o c.q \o "-" \o c.mode \o (IF c.opt THEN "?" ELSE "")
 Line(c) ==
   IF c.side = "rhs" THEN "x => " \o FamNode(c)
-  ELSE FamNode(c)
+  ELSE (IF c.mix = "sameparen" THEN "(" ELSE "") \o FamNode(c)
        \o (CASE c.mix = "none" -> "" [] c.mix = "and" -> " & x:fail?" [] c.mix = "or" -> " | x:fail?"
-             [] c.mix = "andfam" -> " & G:start-any" [] c.mix = "orfam" -> " | G:start-any")
+             [] c.mix = "andfam" -> " & G:start-any" [] c.mix = "orfam" -> " | G:start-any"
+             [] c.mix = "sameor" -> " | FAM:" \o Q2(c) \o "-" \o Mode2(c)
+             [] c.mix = "sameparen" -> " & FAM:" \o Q2(c) \o "-" \o Mode2(c) \o ") | x:fail?")
        \o " => y"
 
 \* Tasks that receive the trigger.
@@ -76,8 +88,10 @@ Targets(c) == IF c.side = "rhs" THEN Members(c.n) ELSE {"y"}
 DeclaredOpt(c) ==
   LET outs == IF c.q = "lone" THEN {"succeeded"} ELSE MemOut(c.q)
       o    == IF c.q = "finish" THEN TRUE ELSE c.opt
-  IN IF (c.side = "lhs" /\ c.off # "") \/ c.q = "lone" THEN {}
-     ELSE {<<m, out, o>> : m \in Members(c.n), out \in outs}
+  IN (IF (c.side = "lhs" /\ c.off # "") \/ c.q = "lone" THEN {}
+      ELSE {<<m, out, o>> : m \in Members(c.n), out \in outs})
+     \cup (IF c.side = "lhs" /\ c.mix \in {"sameor", "sameparen"}
+           THEN {<<m, out, FALSE>> : m \in Members(c.n), out \in MemOut(Q2(c))} ELSE {})
 
 VARIABLES c, line, atoms, truth, targets, declopt
 vars == <<c, line, atoms, truth, targets, declopt>>
